@@ -570,6 +570,85 @@ def correspond_unipi(ctx, corr, env):
     corr.count("unipi_session", len(meta))
 
 
+REFUSE_WIDTHS = {"hasseb": (8, 15, 17, 24, 25, 32), "tridonic": (8, 12, 17, 25, 32, 64)}
+REFUSE_MODES = {"default": ({}, None), "exceptions=True": ({"exceptions": True}, None),
+                "exceptions=False": ({"exceptions": False}, None), "exceptions_on_send=False": ({}, False),
+                "in_transaction": ({"in_transaction": True}, None), "run_sequence": (None, None),
+                "run_sequence,exceptions_on_send=False": (None, False)}
+
+
+def refuse_one(env, drv, bits, mname):
+    """one refusal scenario on the real asyncio HID driver -> (outcome text, packets written, lock held, spun)"""
+    import asyncsim_watch as sim
+    import common
+    kw, eos = REFUSE_MODES[mname]
+    hidmod = env.hidmod
+    saved_os = hidmod.os
+    c = env.stub(bits, (1 << bits) - 2, False)
+    state = {}
+
+    async def scenario(loop):
+        hs = await (sim.HassebSim() if drv == "hasseb" else sim.TriSim()).start()
+        d = hs.d
+        state["fos"], state["d"] = hs.fos, d
+        hs.fos.written.clear()
+        if eos is not None:
+            d.exceptions_on_send = eos
+        if kw is None:
+            def seq():
+                yield c
+            return await d.run_sequence(seq())
+        if kw.get("in_transaction"):
+            async with d.transaction_lock:
+                return await d.send(c, **kw)
+        return await d.send(c, **kw)
+    spun = False
+    try:
+        r = sim.run(scenario, spin_limit_s=6)
+        out = "returned %r" % (r,)
+    except common.Spin:
+        spun = True
+        out = "never returns: spins without yielding to the event loop"
+    except BaseException as e:  # noqa
+        out = "err " + type(e).__name__
+    finally:
+        hidmod.os = saved_os
+    written = [w.hex()[:24] for w in state["fos"].written[:2]] if "fos" in state else []
+    locked = state["d"].transaction_lock.locked() if "d" in state and not spun else False
+    return out, written, locked, spun
+
+
+def refusal_through_send(ctx, corr, env):
+    """'each driver ... refuses command frames of a length the gateway cannot carry' through the PUBLIC entry points
+    of the asyncio HID drivers, in every send mode (default, exceptions on, exceptions off, the per-driver default
+    switched off, inside a caller's transaction) and through run_sequence: UnsupportedFrameTypeError at once,
+    nothing written to the device, the transaction lock free afterwards.  A virtual-time loop with a wall-clock
+    watchdog: a refusal that turns into a busy retry loop is reported as 'never returns'.  (Strengthening after
+    seeded round 6: the encoders themselves - `_send_raw` - are compared with the model in suite 2; this suite
+    covers the retry / lock layer around them.)"""
+    n = 0
+    spun = set()
+    for drv in ("hasseb", "tridonic"):
+        for bits in REFUSE_WIDTHS[drv]:
+            for mname in REFUSE_MODES:
+                if (drv, mname) in spun:
+                    continue        # one witness per driver and mode; each spin costs the watchdog's limit
+                inp = {"driver": drv, "frame bits": bits, "mode": mname}
+                out, written, locked, sp = refuse_one(env, drv, bits, mname)
+                if sp:
+                    spun.add((drv, mname))
+                if out != "err UnsupportedFrameTypeError":
+                    corr.violate("refuse:%s:send" % drv, inp, "err UnsupportedFrameTypeError", out,
+                                 "a frame length the gateway cannot carry must be refused in every send mode")
+                elif written:
+                    corr.violate("refuse:%s:send" % drv, inp, "nothing written", written)
+                elif locked and mname != "in_transaction":
+                    corr.violate("refuse:%s:send" % drv, inp, "transaction lock free after the refusal", "locked")
+                n += 1
+        corr.nontrivial((drv, "refuse-through-send"))
+    corr.count("refusal_through_send", n)
+
+
 def model_batch(lines):
     return Model("m_wire").batch(lines)
 
@@ -799,11 +878,17 @@ def correspond(ctx, corr):
 
     # ---- 5. UniPi receive side (hidden gateway state: the receive counter)
     correspond_unipi(ctx, corr, env)
+    refusal_through_send(ctx, corr, env)
 
 
 def replay(ctx, payload):
     v = payload.get("failure") or {}
     inp = v.get("input")
+    if isinstance(inp, dict) and "mode" in inp:
+        out, written, locked, _sp = refuse_one(Env(), inp["driver"], inp["frame bits"], inp["mode"])
+        print("input :", inp, "\ncode  :", out, "| written:", written, "| lock held:", locked,
+              "\nformat: err UnsupportedFrameTypeError, nothing written, lock free")
+        return out != "err UnsupportedFrameTypeError" or bool(written) or (locked and inp["mode"] != "in_transaction")
     if not isinstance(inp, str):
         ds = [d for d in payload.get("disagreements", []) if d and isinstance(d.get("input"), str)]
         if not ds:
